@@ -326,10 +326,12 @@ def native_frame(info):
     if kind == 'none':
         return Frame({'k': 1})
     rng = np.random.default_rng(7)
-    img = rng.integers(0, 255, (6, 5) if fmt == 'GRAY' else (6, 5, 3), dtype=np.uint8)
+    hh, ww = int(info.get('h') or 6), int(info.get('w') or 5)
+    hh, ww = max(1, min(hh, 64)), max(1, min(ww, 64))
+    img = rng.integers(0, 255, (hh, ww) if fmt == 'GRAY' else (hh, ww, 3), dtype=np.uint8)
     if kind == 'jpgonly':
         ok, buf = cv2.imencode('.jpg', img)
-        return Frame.from_blob(bytes(buf), {'k': 1}, 6, 5, fmt)
+        return Frame.from_blob(bytes(buf), {'k': 1}, hh, ww, fmt)
     img.flags.writeable = bool(wr)
     f = Frame(img, {'k': 1}, fmt)
     if info.get('jpgcached'):
@@ -586,6 +588,17 @@ class ConstructorUnit(Unit):
                 w2 = img if v.format == other else cv2.cvtColor(img, cv2.COLOR_RGB2BGR)
                 if not np.array_equal(v.image, w2):
                     obs.append(f'Frame({fmt} frame, format={other!r}).{acc} shows stale/inherited pixels')
+        import pickle
+        for fmt in ('BGR', 'RGB', 'GRAY'):
+            for wr, with_jpg in ((False, True), (False, False), (True, False)):
+                img = np.random.default_rng(5).integers(0, 255, (6, 5) if fmt == 'GRAY' else (6, 5, 3), dtype=np.uint8)
+                img.flags.writeable = wr
+                f = Frame(img, {'k': 1}, fmt)
+                if with_jpg:
+                    f.jpg
+                g = pickle.loads(pickle.dumps(f))
+                if g.image is None or not np.array_equal(g.image, img) or bool(g.image.flags.writeable) != wr or g.format != fmt:
+                    obs.append(f'pickle round trip of a {"writable" if wr else "read-only"} {fmt} frame{" with a cached jpg" if with_jpg else ""} changes pixels / writability / format')
         return {'confirmed': bool(obs), 'inputs': failure.get('extra'), 'observed': obs or 'no violation reproduced natively', 'required': 'every view shows the documented conversion of its source pixels'}
 
 
